@@ -15,6 +15,7 @@
 (*   ST4 a v     4-byte store of v,v+1,v+2,v+3     MOV DWORD [abs32], imm32          *)
 (*   LD a        low byte of acc := mem[a]         MOV AL, [abs32]                   *)
 (*   PATCH s v   store v over the immediate of the instruction in slot s (code)      *)
+(*   PATCHS s    the same with a string store (STOSB, several IR blocks) of acc's low byte *)
 (*                                                                                 *)
 (* A memory access faults when any byte it touches is unmapped or lacks the        *)
 (* permission: the instruction then has NO effect, pc stays on it and the fault is *)
@@ -27,7 +28,10 @@ EXTENDS Integers, Sequences, FiniteSets, TLC
 
 M16 == 65536
 (* acc is a pair <<hi, lo>> of 16-bit limbs (TLC integers are 32-bit) *)
-Hash(acc, i) == LET l == 3 * acc[2] + i IN <<(3 * acc[1] + (l \div M16)) % M16, l % M16>>
+(* the immediate is a sign-extended byte: i >= 128 stands for i - 256, i.e. + 0xFFFFFF00 + i modulo 2^32 *)
+Hash(acc, i) == IF i < 128 THEN LET l == 3 * acc[2] + i IN <<(3 * acc[1] + (l \div M16)) % M16, l % M16>>
+                ELSE LET l == 3 * acc[2] + 65280 + i IN <<(3 * acc[1] + 65535 + (l \div M16)) % M16, l % M16>>
+PushVal(i) == IF i < 128 THEN <<0, i>> ELSE <<65535, 65280 + i>>        \* pushed words as <<hi, lo>> 16-bit limbs
 SetLow(acc, b) == <<acc[1], (acc[2] - (acc[2] % 256)) + b>>
 
 (* data memory: pages are records [base, size, perm] with perm in {"rw", "ro"}; dm maps written addresses to bytes, *)
@@ -43,7 +47,7 @@ WrBytes(dm, a, bs) == [x \in DOMAIN dm \cup {a + k - 1 : k \in 1..Len(bs)} |->
 Step(st) ==
   LET ins == st.prog[st.pc + 1] nxt == st.pc + 1 IN
   CASE ins.k = "RT" -> [st EXCEPT !.acc = Hash(st.acc, ins.i), !.pc = nxt]
-    [] ins.k = "PU" -> IF st.stackok THEN [st EXCEPT !.stack = Append(st.stack, ins.i), !.pc = nxt]
+    [] ins.k = "PU" -> IF st.stackok THEN [st EXCEPT !.stack = Append(st.stack, PushVal(ins.i)), !.pc = nxt]
                        ELSE [st EXCEPT !.fault = TRUE]
     [] ins.k = "DEC" -> [st EXCEPT !.cnt = (st.cnt + M16 - 1) % M16, !.zf = (st.cnt = 1), !.pc = nxt]
     [] ins.k = "JNZ" -> [st EXCEPT !.pc = IF st.zf THEN nxt ELSE ins.t]
@@ -57,6 +61,9 @@ Step(st) ==
     [] ins.k = "LD" -> IF CanRead(st.pages, ins.a) THEN [st EXCEPT !.acc = SetLow(st.acc, RdByte(st, ins.a)), !.pc = nxt]
                        ELSE [st EXCEPT !.fault = TRUE]
     [] ins.k = "PATCH" -> [st EXCEPT !.prog[ins.s + 1].i = ins.v, !.pc = nxt]
+    (* STOSB with the string pointer on the immediate of slot s: stores the low byte of acc there (the pointer then moves on: *)
+    (* one execution per run)                                                                                               *)
+    [] ins.k = "PATCHS" -> [st EXCEPT !.prog[ins.s + 1].i = st.acc[2] % 256, !.pc = nxt]
 
 (* memory breakpoints: records [a, n, r, w]; the bytes an instruction reads / writes (data accesses only) *)
 Touch(ins) == CASE ins.k = "ST" -> [r |-> {}, w |-> {ins.a}]
